@@ -205,6 +205,14 @@ def ob_demarcators(timeout):
             return "intersection with braces/percent in both labels"
         if tuples(td.mergeLabels(tc).entries) != ([(a0, a1, "{0}%s{{({p})")] if ov else []):
             return "mergeLabels with braces/percent in the labels"
+        # an empty label in B is still "something in B"
+        te = IntervalTier("E", [Interval(b0, b1, "")], 0.0, hi)
+        if tuples(ta.mergeLabels(te).entries) != ([(a0, a1, "x()")] if ov else []):
+            return "mergeLabels: an interval of A that overlaps an empty-labelled interval of B is kept"
+        if tuples(ta.mergeLabels(te, "").entries) != ([(a0, a1, "x()")] if ov else []):
+            return "mergeLabels with an empty demarcator"
+        if tuples(ta.intersection(te).entries) != ([(lo, up, "x-")] if ov else []):
+            return "intersection with an empty label in B"
         tb2 = IntervalTier("B", [Interval(b0, b1, "p"), Interval(hi, hi + 1.0, "q")], 0.0, hi + 1.0)
         ta2 = IntervalTier("A", [Interval(a0, hi + 1.0, "x")], 0.0, hi + 1.0) if a0 < b0 else None
         if ta2 is not None:
